@@ -1,17 +1,15 @@
 (* C12 - basic lemmas: address equality, association lists, the object heap, list utilities. *)
 From Coq Require Import ZArith List Bool Lia Arith.
-From IPV8V Require Import lib.PyErr lib.Bytes model.M12_network.
+From IPV8V Require Import lib.PyErr lib.Bytes model.M02_wire model.M12_network.
 Import ListNotations.
 Open Scope Z_scope.
 
 (* ------------------------------------------------------------------ equality tests *)
 Lemma addr_eqb_eq a b : addr_eqb a b = true <-> a = b.
 Proof.
-  destruct a as [i p|i p], b as [j q|j q]; simpl; split; intro H; try discriminate.
-  - apply andb_true_iff in H as [H1 H2]. apply Z.eqb_eq in H1, H2. congruence.
-  - inversion H; subst. rewrite !Z.eqb_refl. reflexivity.
-  - apply andb_true_iff in H as [H1 H2]. apply Z.eqb_eq in H1, H2. congruence.
-  - inversion H; subst. rewrite !Z.eqb_refl. reflexivity.
+  destruct a as [i p|i p|i p], b as [j q|j q|j q]; simpl; split; intro H; try discriminate;
+    try (apply andb_true_iff in H as [H1 H2]; apply bytes_eqb_eq in H1; apply Z.eqb_eq in H2; congruence);
+    inversion H; subst; rewrite bytes_eqb_refl, Z.eqb_refl; reflexivity.
 Qed.
 
 Lemma addr_eqb_refl a : addr_eqb a a = true.
@@ -314,8 +312,8 @@ Qed.
 Lemma am_values_update m m' a :
   In a (am_values (am_update m m')) -> In a (am_values m) \/ In a (am_values m').
 Proof.
-  destruct m as [[[i4 p4]|] [[i6 p6]|]], m' as [[[j4 q4]|] [[j6 q6]|]]; unfold am_values, am_update; simpl;
-    intros H; repeat (destruct H as [H|H]; [subst; auto|]); try contradiction; auto.
+  destruct m as [x4 x6 xd], m' as [[y4|] [y6|] [yd|]]; unfold am_values, am_update, opt_or, opt_list;
+    cbn [am4 am6 amd]; rewrite !in_app_iff; cbn [In]; tauto.
 Qed.
 
 (* ------------------------------------------------------------------ more on `d[k] = v` *)
